@@ -190,6 +190,9 @@ function controlKinds() {
     // (a template without a data attribute gets an empty object, not a string: `length` is undefined there)
     ['template:is-no-data-reads-length', (b) => [tdef('t', [...b, text('[', E(id('length')), ']')]), tis('t')]],
     ['template:is-shorthand', (b) => [tdef('t', [...b, text(E(id('x')), E(id('y')))]), tis('t', M.obj([{ short: 'x' }, { short: 'y' }]))]],
+    // the data attribute written without quotes (one shorthand field; a spread)
+    ['template:is-shorthand-unquoted', (b) => [tdef('t', [...b, text('[', E(id('x')), ']')]), tis('t', M.obj([{ short: 'x' }]), { unquotedData: true }), el('v', [A.plain('p', 'after')])]],
+    ['template:is-spread-unquoted', (b) => [tdef('t', [...b, text(E(id('b')))]), tis('t', M.obj([{ spread: id('a') }]), { unquotedData: true })]],
     ['template:is-two-spreads', (b) => [tdef('t', [...b, text(E(id('b')), E(M.mem(id('a'), 'v')))]), tis('t', M.obj([{ spread: id('obj') }, { spread: id('a') }]))]],
     ['template:is-spread', (b) => [tdef('t', [...b, text(E(id('b')))]), tis('t', M.obj([{ spread: id('a') }]))]],
     ['template:is-dynamic', (b) => [tdef('t', [...b, text('T')]), tdef('u', [text('U')]), tis(E(id('n')))]],
